@@ -22,6 +22,7 @@ type Engine struct {
 	contracts   *ContractDB
 	inlineAll   bool
 	checkGuards bool
+	fieldWritten map[string]map[int]bool
 }
 
 func (e *Engine) pkgOf(fn *ssa.Function) *packages.Package {
@@ -64,6 +65,107 @@ func (e *Engine) FindFunc(pkgPath, short string) *ssa.Function {
 		}
 	}
 	return found
+}
+
+// initOnlyField: an unexported field of a named struct type that no function of its defining package stores to,
+// except through the address of an object the same function has just allocated, and whose address never escapes.
+func (e *Engine) initOnlyField(t types.Type, idx int) bool {
+	named := namedOf(t)
+	if named == nil || named.Obj().Pkg() == nil {
+		return false
+	}
+	stt, ok := named.Underlying().(*types.Struct)
+	if !ok || idx >= stt.NumFields() || stt.Field(idx).Exported() {
+		return false
+	}
+	key := named.Obj().Pkg().Path() + "." + named.Obj().Name()
+	if e.fieldWritten == nil {
+		e.fieldWritten = map[string]map[int]bool{}
+	}
+	if w, done := e.fieldWritten[key]; done {
+		return !w[idx]
+	}
+	written := map[int]bool{}
+	e.fieldWritten[key] = written
+	spkg := e.prog.Package(named.Obj().Pkg())
+	if spkg == nil {
+		for i := 0; i < stt.NumFields(); i++ {
+			written[i] = true
+		}
+		return false
+	}
+	seen := map[*ssa.Function]bool{}
+	var visit func(fn *ssa.Function)
+	visit = func(fn *ssa.Function) {
+		if fn == nil || seen[fn] {
+			return
+		}
+		seen[fn] = true
+		for _, b := range fn.Blocks {
+			for _, ins := range b.Instrs {
+				if stIns, isStore := ins.(*ssa.Store); isStore {
+					// a whole-struct assignment through a pointer that is not a fresh allocation writes every field
+					if pt, ok := stIns.Addr.Type().Underlying().(*types.Pointer); ok {
+						if n := namedOf(pt.Elem()); n != nil && n.Obj() == named.Obj() {
+							if _, isAlloc := stIns.Addr.(*ssa.Alloc); !isAlloc {
+								for i := 0; i < stt.NumFields(); i++ {
+									written[i] = true
+								}
+							}
+						}
+					}
+				}
+				fa, ok := ins.(*ssa.FieldAddr)
+				if !ok {
+					continue
+				}
+				pt, ok := fa.X.Type().Underlying().(*types.Pointer)
+				if !ok || namedOf(pt.Elem()) == nil || namedOf(pt.Elem()).Obj() != named.Obj() {
+					continue
+				}
+				_, baseIsAlloc := fa.X.(*ssa.Alloc)
+				refs := fa.Referrers()
+				if refs == nil {
+					written[fa.Field] = true
+					continue
+				}
+				for _, r := range *refs {
+					switch u := r.(type) {
+					case *ssa.UnOp:
+						if u.Op == token.MUL {
+							continue
+						}
+					case *ssa.DebugRef:
+						continue
+					case *ssa.Store:
+						if u.Addr == fa && u.Val != ssa.Value(fa) && baseIsAlloc {
+							continue
+						}
+					case *ssa.FieldAddr, *ssa.IndexAddr:
+						// the address of a nested part: treated as a possible write of this field
+					}
+					written[fa.Field] = true
+				}
+			}
+		}
+		for _, a := range fn.AnonFuncs {
+			visit(a)
+		}
+	}
+	for _, m := range spkg.Members {
+		switch x := m.(type) {
+		case *ssa.Function:
+			visit(x)
+		case *ssa.Type:
+			for _, tt := range []types.Type{x.Type(), types.NewPointer(x.Type())} {
+				ms := e.prog.MethodSets.MethodSet(tt)
+				for i := 0; i < ms.Len(); i++ {
+					visit(e.prog.MethodValue(ms.At(i)))
+				}
+			}
+		}
+	}
+	return !written[idx]
 }
 
 // neverWritten: no instruction of the global's package stores to it or lets its address escape.
